@@ -5,15 +5,15 @@
     each (query, reference) pair is an input of the scan; [kern] states how the callers use the
     bounded kernels. Definitions only — proofs are in Proofs.v. *)
 From Coq Require Import NArith List Bool Arith.
+From OBI.C15.Gen Require Import Tables.
 Import ListNotations.
 
 (** * 4-mers (pkg/obikmer/encodefourmer.go, counting.go) *)
 
-(** [__single_base_code__[b & 31]]: a,c,g,t/u -> 0,1,2,3; every other symbol -> 0 (like a) *)
-Definition base_code (b : N) : N :=
-  match N.land b 31 with
-  | 3%N => 1%N | 7%N => 2%N | 20%N => 3%N | 21%N => 3%N | _ => 0%N
-  end.
+(** [__single_base_code__[b & 31]]: the table is REGENERATED from the current build on every run
+    (Gen/Tables.v); Proofs.v re-proves from it: a,c,g,t/u -> 0,1,2,3 in both cases, every other
+    symbol -> 0 (like a), every code <= 3 *)
+Definition base_code (b : N) : N := nth (N.to_nat (N.land b 31)) base_code_tab 0%N.
 
 Definition code4 (a b c d : N) : N :=
   (((base_code a * 4 + base_code b) * 4 + base_code c) * 4 + base_code d)%N.
@@ -41,9 +41,8 @@ Definition encode4mer (s : list N) : list N :=
   | a :: b :: c :: d :: r => code4 a b c d :: roll4 (code4 a b c d) r
   | _ => []
   end.
-(** Encode4mer indexes rawseq[3] when the length is exactly 3 (guard [length < 0] instead of
-    [<= 0]): run-time panic. Defect owned by another property (C08); here it is an error value. *)
-Definition encode_panics (s : list N) : bool := length s =? 3.
+(** (sequences shorter than 4 symbols: `length <= 0`, no 4-mer; the former panic on exactly 3 symbols was
+    repaired under property C08 and length-3 sequences are now part of the generated cases) *)
 
 (** Count4Mer: table of 256 counters; Common4Mer: sum of the pointwise minima *)
 Fixpoint count (k : N) (l : list N) : nat :=
@@ -58,6 +57,41 @@ Fixpoint sumk (f : N -> nat) (n : nat) : nat :=
   end.
 Definition common (l1 l2 : list N) : nat := sumk (fun k => Nat.min (count k l1) (count k l2)) 256.
 Definition common4 (s t : list N) : nat := common (kmers4 s) (kmers4 t).
+
+(** what the code computes: the cells of a Table4mer are unsigned integers of [cell_bits] bits (uint16:
+    regenerated from the build), the increment of a cell wraps around; Common4Mer sums the minima of the
+    WRAPPED cells. Binary arithmetic (also much faster under vm_compute than [count]). *)
+Fixpoint countN (k : N) (l : list N) : N :=
+  match l with
+  | [] => 0%N
+  | x :: r => if N.eqb x k then N.succ (countN k r) else countN k r
+  end.
+Definition cell_modulus : N := (2 ^ cell_bits)%N.
+Definition cell (k : N) (l : list N) : N := (countN k l mod cell_modulus)%N.
+Fixpoint sumkN (f : N -> N) (n : nat) : N :=
+  match n with
+  | 0 => 0%N
+  | S m => (sumkN f m + f (N.of_nat m))%N
+  end.
+Definition commonw (l1 l2 : list N) : nat := N.to_nat (sumkN (fun k => N.min (cell k l1) (cell k l2)) 256).
+Definition common4w (s t : list N) : nat := commonw (kmers4 s) (kmers4 t).
+(** the whole table of a sequence (cells 255 down to 0), computed once per sequence by the correspondence;
+    Proofs.v: [commonw_tab (table4 s) (table4 t) = common4w s t] *)
+Fixpoint tab (f : N -> N) (n : nat) : list N :=
+  match n with
+  | 0 => []
+  | S m => f (N.of_nat m) :: tab f m
+  end.
+Definition table4 (s : list N) : list N := let l := kmers4 s in tab (fun k => cell k l) 256.
+Fixpoint common_tab (t1 t2 : list N) : N :=
+  match t1, t2 with
+  | a :: r1, b :: r2 => (common_tab r1 r2 + N.min a b)%N
+  | _, _ => 0%N
+  end.
+Definition commonw_tab (t1 t2 : list N) : nat := N.to_nat (common_tab t1 t2).
+(** the guard under which the cells are the exact counts: no 4-mer occurs 2^16 times or more *)
+Definition cells_exactb (s : list N) : bool :=
+  forallb (fun k => (countN (N.of_nat k) (kmers4 s) <? cell_modulus)%N) (seq 0 256).
 
 (** * FindClosests *)
 
@@ -84,8 +118,8 @@ Record fstate := mkst { s_maxe : option nat; s_wordmin : nat; s_bests : list nat
 Definition thr_fixed (qlen rlen e : nat) : nat := qlen - 3 - 4 * e.
 Definition thr_orig (qlen rlen e : nat) : nat := Nat.max qlen rlen - 3 - 4 * e.
 
-Definition fstep (thr : nat -> nat -> nat -> nat) (qlen : nat) (c : cand) (st : fstate) : fstate :=
-  match kern (s_maxe st) (c_d c) with
+Definition fstep_core (ans : option nat) (thr : nat -> nat -> nat -> nat) (qlen : nat) (c : cand) (st : fstate) : fstate :=
+  match ans with
   | None => st
   | Some score =>
       let better := match s_maxe st with None => true | Some m => score <? m end in
@@ -100,6 +134,8 @@ Definition fstep (thr : nat -> nat -> nat -> nat) (qlen : nat) (c : cand) (st : 
              (if upd then c_idx c else s_bmatch st1)
       else st1
   end.
+Definition fstep (thr : nat -> nat -> nat -> nat) (qlen : nat) (c : cand) (st : fstate) : fstate :=
+  fstep_core (kern (s_maxe st) (c_d c)) thr qlen c st.
 
 (** the scan over the candidates (in the order computed by the code), with its [break] *)
 Fixpoint fscan (thr : nat -> nat -> nat -> nat) (qlen : nat) (cs : list cand) (st : fstate) : fstate :=
@@ -111,8 +147,29 @@ Fixpoint fscan (thr : nat -> nat -> nat -> nat) (qlen : nat) (cs : list cand) (s
 Definition finit (first : nat) : fstate := mkst None 0 [] 0 1 first.
 Definition find_closests thr qlen (cs : list cand) : fstate :=
   fscan thr qlen cs (finit (match cs with c :: _ => c_idx c | [] => 0 end)).
-(** obitag2.FindClosests: same loop, gives up after the candidates of rank 0..1000 *)
-Definition find_closests2 thr qlen (cs : list cand) : fstate := find_closests thr qlen (firstn 1001 cs).
+(** obitag2.FindClosests: same loop with `|| i > 1000` in the break test: the candidates of rank
+    0..1000 are looked at, the scan is left at rank 1001 *)
+Definition find_closests_cap (n : nat) thr qlen (cs : list cand) : fstate := find_closests thr qlen (firstn n cs).
+Definition find_closests2 thr qlen (cs : list cand) : fstate := find_closests_cap 1001 thr qlen cs.
+(** ... and, exactly, `switch maxe { case 0: byte equality of the two sequences; case 1: D1Or0; default:
+    FastLCSScore }`: with a best distance of 0 only byte-identical references are ties ([eqf i]: reference i
+    has the same bytes as the query). Proofs.v: same function as [find_closests2] when byte equality agrees
+    with kernel distance 0 (acgt sequences); with IUPAC codes it can return fewer ties than obitag. *)
+Definition kern2 (maxe : option nat) (eq : bool) (d : nat) : option nat :=
+  match maxe with
+  | Some 0 => if eq then Some 0 else None
+  | _ => kern maxe d
+  end.
+Definition fstep2 (eqf : nat -> bool) thr qlen (c : cand) (st : fstate) : fstate :=
+  fstep_core (kern2 (s_maxe st) (eqf (c_idx c)) (c_d c)) thr qlen c st.
+Fixpoint fscan2 (eqf : nat -> bool) (thr : nat -> nat -> nat -> nat) (qlen : nat) (cs : list cand) (st : fstate) : fstate :=
+  match cs with
+  | [] => st
+  | c :: r => if c_cw c <? s_wordmin st then st else fscan2 eqf thr qlen r (fstep2 eqf thr qlen c st)
+  end.
+Definition find_closests2x (eqf : nat -> bool) thr qlen (cs : list cand) : fstate :=
+  let cs' := firstn 1001 cs in
+  fscan2 eqf thr qlen cs' (finit (match cs' with c :: _ => c_idx c | [] => 0 end)).
 
 (** * Taxonomy as the code walks it (Path, LCA) — executable stand-in used for correspondence;
       the theorems take the LCA as a Section variable *)
@@ -191,6 +248,22 @@ Fixpoint lookup (idx : list (nat * nat)) (d : nat) (acc : option (nat * nat)) : 
       then lookup r d (match acc with Some (k0, _) => if k0 <? k then Some (k, t) else acc | None => Some (k, t) end)
       else lookup r d acc
   end.
+(** the loop of Identify, exactly: idx[d], idx[d-1], ..., idx[0] (first hit = largest recorded distance
+    <= observed); when there is none ("horrible hack"): idx[-1], idx[0], ..., idx[1000] upwards (first hit =
+    smallest recorded distance, if <= 1000); when that fails too the two loops alternate for ever: [None] *)
+Fixpoint smallest (idx : list (nat * nat)) (acc : option (nat * nat)) : option (nat * nat) :=
+  match idx with
+  | [] => acc
+  | (k, t) :: r => smallest r (match acc with Some (k0, _) => if k <? k0 then Some (k, t) else acc | None => Some (k, t) end)
+  end.
+Definition lookup_id (idx : list (nat * nat)) (d : nat) : option (nat * nat) :=
+  match lookup idx d None with
+  | Some e => Some e
+  | None => match smallest idx None with
+            | Some (k, t) => if k <=? 1000 then Some (k, t) else None
+            | None => None
+            end
+  end.
 Fixpoint fold_lca (lca : nat -> nat -> option nat) (ts : list nat) (acc : option nat) : option nat :=
   match ts with
   | [] => acc
@@ -211,7 +284,7 @@ Definition identify (lca : nat -> nat -> option nat) (indices : nat -> list (nat
   | None => Some 1
   | Some d =>
       if s_bali st <=? 2 * s_blcs st      (* identity >= 0.5 *)
-      then match all_some (map (fun b => option_map snd (lookup (indices b) d None)) (s_bests st)) with
+      then match all_some (map (fun b => option_map snd (lookup_id (indices b) d)) (s_bests st)) with
            | Some ts => fold_lca lca ts None
            | None => None
            end
@@ -268,17 +341,20 @@ Definition fobs_eqb (a b : fobs) : bool :=
   | _, _ => false
   end.
 
-Definition cands_of (q : list N) (refs : list (list N)) (qd : list (nat * nat)) (order : list nat) : list cand :=
+Definition cands_of_with (cm : list N -> list N -> nat)
+    (q : list N) (refs : list (list N)) (qd : list (nat * nat)) (order : list nat) : list cand :=
   map (fun i => let r := nth i refs [] in
-                mkcand i (common4 q r) (length r) (fst (nth i qd (0, 0))) (snd (nth i qd (0, 0)))) order.
+                mkcand i (cm q r) (length r) (fst (nth i qd (0, 0))) (snd (nth i qd (0, 0)))) order.
+(** the candidates as the code sees them: shared counts from the wrapped cells *)
+Definition cands_of := cands_of_with common4w.
 
-Definition model_index thr (c : ccase) (i : nat) : option (list (nat * nat)) :=
+Definition model_index thr (c : ccase) (tabs : list (list N)) (i : nat) : option (list (nat * nat)) :=
   let s := nth i (k_refs c) [] in
   let ti := nth i (k_tax c) 0 in
   match path_down (k_parent c) ti,
         all_some (map (fun j => lca_exec (k_parent c) ti (nth j (k_tax c) 0)) (seq 0 (length (k_refs c)))) with
   | Some pseq, Some lcas =>
-      let cwi := map (fun r => common4 s r) (k_refs c) in
+      let cwi := map (fun t => commonw_tab (nth i tabs []) t) tabs in
       let order := nth i (k_rorder c) [] in
       if valid_order order cwi then
         Some (index_ref thr (length s) pseq
@@ -291,17 +367,16 @@ Definition model_index thr (c : ccase) (i : nat) : option (list (nat * nat)) :=
 (** true iff the model reproduces every observable of the case *)
 Definition case_ok (c : ccase) : bool :=
   let n := length (k_refs c) in
-  if existsb encode_panics (k_q c :: k_refs c) then false else
-  let cw := map (fun r => common4 (k_q c) r) (k_refs c) in
+  let cw := map (fun r => common4w (k_q c) r) (k_refs c) in
   list_eqb Nat.eqb cw (o_cw c) &&
   list_eqb N.eqb (encode4mer (k_q c)) (kmers4 (k_q c)) &&
   valid_order (k_order c) cw &&
   let cs := cands_of (k_q c) (k_refs c) (k_qd c) (k_order c) in
   let st := find_closests thr_fixed (length (k_q c)) cs in
   fobs_eqb (fobs_of st) (o_fc c) &&
-  fobs_eqb (fobs_of (find_closests2 thr_fixed (length (k_q c)) cs)) (o_fc2 c) &&
+  fobs_eqb (fobs_of (find_closests2x (fun i => list_eqb N.eqb (k_q c) (nth i (k_refs c) [])) thr_fixed (length (k_q c)) cs)) (o_fc2 c) &&
   (if k_index c then
-     match all_some (map (model_index thr_fixed c) (seq 0 n)) with
+     match (let tabs := map table4 (k_refs c) in all_some (map (model_index thr_fixed c tabs) (seq 0 n))) with
      | Some idxs =>
          list_eqb (list_eqb pair_eqb) idxs (o_idx c) &&
          match identify (lca_exec (k_parent c)) (fun b => nth b idxs []) st with
